@@ -76,7 +76,10 @@ Read(n, r) ==
                        /\ (k = 0 /\ r.err = "nil" => Spells(r.begin, pos))
                        /\ (r.err = "nil" \/ k > 0 => Spells(r.end, pos + k))
                   /\ pos' = pos + k
-                  /\ perr' = IF r.err = "EOF" /\ ~(blocked /\ pos + k < Total) THEN "EOF" ELSE "nil"
+                  \* (in Blocked mode io.EOF ends a block, not the data: the reader has not looked at what
+                  \* follows - possibly only the empty end-of-file member - and the next Read still reads the
+                  \* underlying stream, where an injected fault may surface; the next Read decides again)
+                  /\ perr' = IF r.err = "EOF" /\ ~blocked THEN "EOF" ELSE "nil"
                \/ \* fault-aware: a correct prefix, then an error
                   /\ faultable
                   /\ r.k <= k /\ DataOK(r, pos, r.k)
